@@ -67,7 +67,7 @@ func exactMatrices(doc *J) (map[int]*exactTM, bool, error) {
 	return res, swapped, nil
 }
 
-func ri(i int64) *big.Rat { return new(big.Rat).SetInt64(i) }
+func ri(i int64) *big.Rat         { return new(big.Rat).SetInt64(i) }
 func rmul(a, b *big.Rat) *big.Rat { return new(big.Rat).Mul(a, b) }
 func radd(a, b *big.Rat) *big.Rat { return new(big.Rat).Add(a, b) }
 func rsub(a, b *big.Rat) *big.Rat { return new(big.Rat).Sub(a, b) }
